@@ -419,3 +419,156 @@ func RuleR3(c *Ctx) {
 		sc.Undecided("walk", c.P.Pos(fd.Pos()), "no loop that moves a candidate field found in the resolver")
 	}
 }
+
+// RuleR4: the resolver leaves a directive in exactly one place. At every success return
+// of the context resolver the directive was either (a) linked - its Parent was set AND
+// that same parent appended it to its children - or (b) inserted into the root list with
+// no Parent store and no AppendChild on any path to that return. A hoisted directive
+// that keeps a Parent pointer to a URL which does not list it (or a child listed by a
+// parent it does not point to) inherits that URL's path-independent attributes (Tags)
+// while being catalogued as a root interaction.
+func RuleR4(c *Ctx) {
+	sc := c.Run.Begin("R4", "at every success return of the context resolver the directive is linked (Parent set and appended to that parent's children) or rooted (inserted into the root list, Parent untouched), never a mixture and never neither", 3)
+	defer sc.End()
+	resolver, _ := c.resolverFunc()
+	parent := c.Field("directive", "Directive", "Parent")
+	appendChild := c.Func("directive", "Directive.AppendChild")
+	if resolver == nil || parent == nil || appendChild == nil {
+		sc.Undecided("anchors", "-", "unresolved anchor: context resolver / Directive.Parent / Directive.AppendChild")
+		return
+	}
+	fd := c.P.Decl(resolver)
+	pk := c.P.PkgOfDecl(fd)
+	info := pk.TypesInfo
+	cf := c.CFG(pk, fd.Body)
+	name := c.P.DeclName(fd)
+	// the root-list parameter(s): pointer to a slice of *Directive
+	rootParams := map[types.Object]bool{}
+	for _, fl := range fd.Type.Params.List {
+		for _, id := range fl.Names {
+			if pt, ok := info.ObjectOf(id).Type().(*types.Pointer); ok {
+				if _, isSlice := pt.Elem().Underlying().(*types.Slice); isSlice {
+					rootParams[info.ObjectOf(id)] = true
+				}
+			}
+		}
+	}
+	var storeRHS, appendRecv []ast.Expr
+	isStore := func(nd ast.Node) bool {
+		hit := false
+		inspectNoLit(nd, func(x ast.Node) bool {
+			as, ok := x.(*ast.AssignStmt)
+			if !ok {
+				return true
+			}
+			for i, l := range as.Lhs {
+				if !fieldSel(info, l, parent) || i >= len(as.Rhs) {
+					continue
+				}
+				if tv, ok := info.Types[as.Rhs[i]]; ok && tv.IsNil() {
+					continue
+				}
+				hit = true
+			}
+			return true
+		})
+		return hit
+	}
+	isAppend := func(nd ast.Node) bool {
+		hit := false
+		inspectNoLit(nd, func(x ast.Node) bool {
+			if call, ok := x.(*ast.CallExpr); ok && Callee(info, call) == appendChild {
+				hit = true
+			}
+			return true
+		})
+		return hit
+	}
+	isRoot := func(nd ast.Node) bool {
+		return cfgx.Assigns(nd, func(lhs ast.Expr) bool {
+			st, ok := ast.Unparen(lhs).(*ast.StarExpr)
+			if !ok {
+				return false
+			}
+			id, ok := ast.Unparen(st.X).(*ast.Ident)
+			return ok && rootParams[info.ObjectOf(id)]
+		})
+	}
+	ast.Inspect(fd.Body, func(x ast.Node) bool {
+		switch s := x.(type) {
+		case *ast.AssignStmt:
+			for i, l := range s.Lhs {
+				if fieldSel(info, l, parent) && i < len(s.Rhs) {
+					if tv, ok := info.Types[s.Rhs[i]]; ok && tv.IsNil() {
+						continue
+					}
+					storeRHS = append(storeRHS, s.Rhs[i])
+				}
+			}
+		case *ast.CallExpr:
+			if Callee(info, s) == appendChild {
+				if sel, ok := ast.Unparen(s.Fun).(*ast.SelectorExpr); ok {
+					appendRecv = append(appendRecv, sel.X)
+				}
+			}
+		}
+		return true
+	})
+	// the parent that is stored is the parent that lists the child
+	for i, r := range appendRecv {
+		same := false
+		for _, s := range storeRHS {
+			if cf.SameResolved(r, s) {
+				same = true
+			}
+		}
+		key := fmt.Sprintf("pair:%s#%d", name, i+1)
+		if same {
+			sc.Holds(key, c.P.Pos(r.Pos()), "the directive is appended to the children of the value stored in its Parent")
+		} else {
+			sc.Violation(key, c.P.Pos(r.Pos()), "a directive is appended to the children of "+types.ExprString(r)+", which is not what any Parent store in the resolver writes: Parent and Children disagree")
+		}
+	}
+	nRet := 0
+	ast.Inspect(fd.Body, func(x ast.Node) bool {
+		if _, isLit := x.(*ast.FuncLit); isLit {
+			return false
+		}
+		ret, ok := x.(*ast.ReturnStmt)
+		if !ok || len(ret.Results) != 1 {
+			return true
+		}
+		if tv, has := info.Types[ret.Results[0]]; !has || !tv.IsNil() {
+			return true
+		}
+		nRet++
+		must := func(p func(ast.Node) bool) bool { return cf.MustAt(ret, nil, p, nil) }
+		may := func(p func(ast.Node) bool) bool { return !cf.MustAtInit(ret, true, nil, nil, p) }
+		mustS, mayS := must(isStore), may(isStore)
+		mustA, mayA := must(isAppend), may(isAppend)
+		mustR, mayR := must(isRoot), may(isRoot)
+		key := fmt.Sprintf("exit:%s#%d", name, nRet)
+		switch {
+		case mustS && mustA && !mayR:
+			sc.Holds(key, c.P.Pos(ret.Pos()), "linked: Parent stored and AppendChild called on every path, no root insert")
+		case mustR && !mayS && !mayA:
+			sc.Holds(key, c.P.Pos(ret.Pos()), "rooted: inserted into the root list, Parent never stored, never appended as a child")
+		default:
+			sc.Violation(key, c.P.Pos(ret.Pos()), fmt.Sprintf("the resolver can return success with the directive in an inconsistent place (Parent stored: must=%v may=%v; appended as child: must=%v may=%v; inserted as root: must=%v may=%v): a directive that keeps a Parent which does not list it inherits that parent's Tags/path context while catalogued elsewhere, or is listed twice, or nowhere", mustS, mayS, mustA, mayA, mustR, mayR))
+		}
+		return true
+	})
+	if nRet == 0 {
+		sc.Violation("exit", c.P.Pos(fd.Pos()), "the resolver has no success return")
+	}
+}
+
+// inspectNoLit is ast.Inspect that does not enter function literals.
+func inspectNoLit(n ast.Node, fn func(ast.Node) bool) {
+	ast.Inspect(n, func(x ast.Node) bool {
+		if _, isLit := x.(*ast.FuncLit); isLit {
+			return false
+		}
+		return fn(x)
+	})
+}
